@@ -268,6 +268,7 @@ type Outcome struct {
 	LogWriteErr int                    `json:"logWriteErrors"`
 	ChildGates  int                    `json:"childGates"`
 	Deadlock    string                 `json:"deadlock,omitempty"`
+	Stalled     string                 `json:"stalled,omitempty"` // no scheduling point was reached for a long wall-clock time with an op in flight
 	Harness     string                 `json:"harnessError,omitempty"` // trouble that is the harness's own (exit 2)
 	Foreign     int                    `json:"foreignGoroutines,omitempty"`
 }
